@@ -137,7 +137,7 @@ func c20Op(tag string, st *account.AccountDB, before *c20View) bool {
 			symx.Check(!accepted, "adding stake to an unknown miner is rejected")
 		}
 	case 2: // refund from miner 0: arbitrary amount (part, all, more than the stake, the 'all' sentinel)
-		money := symx.U64(tag+"money")
+		money := symx.U64(tag + "money")
 		acct := symx.Choice(tag+"acct", 2)
 		h, amount, addr, err := RefundManagerImpl.GetRefundStake(c20Height, c20Ids[0], c20Accts[acct].Bytes(), money, st, "casting")
 		accepted = err == nil
